@@ -489,6 +489,11 @@ func lensAccessorRules(c *core.Ctx) map[*ssa.Function]bool {
 			}
 			// normalised form for sibling agreement (base replaced)
 			norm[mn] = strings.ReplaceAll(d.Key(), base.Key(), "BASE")
+			// ... and the receiver, whatever each method calls it
+			if len(fn.Params) > 0 {
+				recv := &ir.Term{Op: "param", Aux: fn.Params[0].Name()}
+				norm[mn] = strings.ReplaceAll(norm[mn], recv.Key(), "RECV")
+			}
 			// effects
 			stores := nonLocalStores(p)
 			if isWrite {
